@@ -16,6 +16,8 @@ def make(cls, x, NFFT=None, sampling=1.0, scale_by_freq=False, **o):
         return spectrum.Periodogram(x, window=o.get('window', 'hann'), **kw)
     if cls == 'pcorrelogram':
         return spectrum.pcorrelogram(x, lag=o['lag'], window=o.get('window', 'hamming'), **kw)
+    if cls == 'pburg' and o.get('criteria'):
+        return spectrum.pburg(x, o['order'], criteria=o['criteria'], **kw)       # order = upper bound, the criterion selects
     if cls in AR_LIKE or cls == 'pminvar':
         return getattr(spectrum, cls)(x, o['order'], **kw)
     if cls == 'parma':
